@@ -981,8 +981,251 @@ fn sizes_wire(r: &Req) -> Vec<u8> {
     b
 }
 
+
+// ------------------------------------------------------------------------------------------
+// C11, one TCP connection: the requests of a run are pipelined by a raw client over a simulated
+// byte pipe (seeded chunking / Pending / cut), framed on the server side by the real
+// `hickory_net::tcp::TcpStream`, handled one at a time exactly as `handle_tcp` does, and the
+// responses travel back through the stream's outbound queue.
+
+#[derive(Serialize, Deserialize, Clone, Debug)]
+struct ConnPlan {
+    sim: SimConfig,
+    zones: Vec<ZoneCfg>,
+    deny: Vec<usize>,
+    allow: Vec<usize>,
+    reqs: Vec<Req>,
+    src: usize,
+    c2s: hsim::net::PipePlan,
+    s2c: hsim::net::PipePlan,
+    /// the client closes its sending side after the last request
+    half_close: bool,
+    buffer: u8,
+}
+
+pub struct ConnPart;
+
+impl Part for ConnPart {
+    fn name(&self) -> &'static str {
+        "tcp-connection"
+    }
+    fn runs(&self, tier: Tier) -> u64 {
+        match tier {
+            Tier::Quick => 8_000,
+            Tier::Thorough => 400_000,
+        }
+    }
+    fn block(&self, _t: Tier) -> u64 {
+        32
+    }
+    fn gen(&self, seed: u64, _tier: Tier) -> Value {
+        let base = gen_front(seed);
+        let mut r = Rng::new(mix(seed ^ 0x7c9));
+        let mut reqs = base.reqs;
+        reqs.truncate(1 + r.usize_below(8));
+        let total: usize = reqs.iter().map(|q| wire_of(q).len() + 2).sum();
+        let mut c2s = super::c17::gen_pipe(&mut r, total);
+        c2s.capacity = 0;
+        if r.chance(1, 4) {
+            c2s.cut = Some((r.below(total as u64 + 1), if r.chance(1, 2) { hsim::net::CutKind::Eof } else { hsim::net::CutKind::Reset }));
+        }
+        let mut s2c = super::c17::gen_pipe(&mut r, 600);
+        s2c.capacity = 0;
+        serde_json::to_value(ConnPlan { sim: base.sim, zones: base.zones, deny: base.deny, allow: base.allow, reqs, src: r.usize_below(SOURCES.len()), c2s, s2c, half_close: r.chance(1, 3), buffer: 32 }).unwrap()
+    }
+    fn run(&self, plan: &Value, trace: bool) -> Report {
+        let mut p: ConnPlan = serde_json::from_value(plan.clone()).expect("plan");
+        p.sim.trace = trace;
+        let fp = Plan { sim: p.sim.clone(), zones: p.zones.clone(), deny: p.deny.clone(), allow: p.allow.clone(), reqs: p.reqs.clone() };
+        let sig = mix(plan_sig(&fp) ^ (p.c2s.cut.is_some() as u64) << 1 ^ (p.half_close as u64) << 2 ^ (p.c2s.write_sizes.len() as u64) << 8 ^ (p.s2c.write_sizes.len() as u64) << 16 ^ (p.c2s.read_pending.len() as u64) << 24);
+        let p2 = p.clone();
+        let out = exec::run(&p.sim, async move { conn_scenario(p2).await });
+        finish(out, sig, p.reqs.len() > 1, "C11.stall")
+    }
+    fn shrink(&self, plan: &Value) -> Vec<Value> {
+        let Ok(p) = serde_json::from_value::<ConnPlan>(plan.clone()) else { return vec![] };
+        let mut out: Vec<ConnPlan> = Vec::new();
+        if p.reqs.len() > 1 {
+            for i in 0..p.reqs.len() {
+                let mut q = p.clone();
+                q.reqs.remove(i);
+                out.push(q);
+            }
+        }
+        for i in 0..p.zones.len() {
+            let mut q = p.clone();
+            q.zones.remove(i);
+            out.push(q);
+        }
+        if !p.deny.is_empty() || !p.allow.is_empty() {
+            let mut q = p.clone();
+            q.deny.clear();
+            q.allow.clear();
+            out.push(q);
+        }
+        if p.c2s.cut.is_some() {
+            let mut q = p.clone();
+            q.c2s.cut = None;
+            out.push(q);
+        }
+        if p.half_close {
+            let mut q = p.clone();
+            q.half_close = false;
+            out.push(q);
+        }
+        for dir in 0..2 {
+            let pl = if dir == 0 { &p.c2s } else { &p.s2c };
+            if !pl.write_sizes.is_empty() || !pl.read_sizes.is_empty() || !pl.write_pending.is_empty() || !pl.read_pending.is_empty() || !pl.flush_pending.is_empty() || pl.latency_ns != 0 {
+                let mut q = p.clone();
+                let t = if dir == 0 { &mut q.c2s } else { &mut q.s2c };
+                let cut = t.cut;
+                *t = hsim::net::PipePlan::default();
+                t.cut = cut;
+                out.push(q);
+            }
+        }
+        if p.sim.policy != hsim::SchedPolicy::Fifo {
+            let mut q = p.clone();
+            q.sim.policy = hsim::SchedPolicy::Fifo;
+            out.push(q);
+        }
+        out.into_iter().map(|q| serde_json::to_value(q).unwrap()).collect()
+    }
+    fn describe(&self) -> Describe {
+        Describe {
+            rule: "plan = (catalog and access sets as in `front`; 1-8 requests of the same classes pipelined on one TCP connection by a raw client; both directions of the connection with seeded write/read chunk sizes, injected Pending on read/write/flush, latency; the client-to-server direction optionally cut (EOF or reset) at any byte; the client optionally half-closes after the last request); non-trivial = more than one request; distinct by request classes, cut and chunking".into(),
+            real: vec!["hickory_net::tcp::TcpStream (server side framing, outbound queue)", "hickory_server::server::TimeoutStream (zero timeout)", "Server front gate (hook) / Catalog / InMemoryZoneHandler"],
+            stub: vec!["SimTcp byte pipe", "the accept loop of handle_tcp (the per-connection loop is reproduced line by line)", "raw TCP client"],
+            assumptions: vec!["a response is demanded for every request whose frame was delivered completely before a zero-length frame, unless the client resets the connection"],
+        }
+    }
+}
+
+async fn conn_scenario(p: ConnPlan) {
+    use hickory_net::tcp::TcpStream;
+    use hickory_server::server::TimeoutStream;
+    let fp = Plan { sim: p.sim.clone(), zones: p.zones.clone(), deny: p.deny.clone(), allow: p.allow.clone(), reqs: vec![] };
+    let server = Rc::new(build_server(&fp));
+    let src = SocketAddr::new(IpAddr::V4(Ipv4Addr::from(SOURCES[p.src % SOURCES.len()])), 40000);
+    let (mut client, server_end) = hsim::net::tcp_pair(p.c2s.clone(), p.s2c.clone());
+    // ---- the per-connection loop of handle_tcp ---------------------------------------------------
+    {
+        let server = server.clone();
+        let buffer = p.buffer.max(1) as usize;
+        exec::spawn("connection", async move {
+            let (buf_stream, stream_handle) = TcpStream::from_stream_with_buffer_size(server_end, src, buffer);
+            let mut timeout_stream = TimeoutStream::new(buf_stream, std::time::Duration::ZERO);
+            while let Some(message) = timeout_stream.next().await {
+                let message = match message {
+                    Ok(message) => message,
+                    Err(e) => {
+                        exec::log(&format!("connection: stream error {e}"));
+                        return;
+                    }
+                };
+                server.verif_handle_raw_request(message, Protocol::Tcp, stream_handle.clone()).await;
+            }
+            exec::log("connection: stream ended");
+        });
+    }
+    // ---- the client ------------------------------------------------------------------------------
+    let wires: Vec<Vec<u8>> = p.reqs.iter().map(|r| { let mut r = r.clone(); r.src = p.src; wire_of(&r) }).collect();
+    let mut sent = 0u64;
+    let mut delivered_frames = 0usize;
+    let cut_at = p.c2s.cut.map(|c| c.0);
+    let reset = matches!(p.c2s.cut, Some((_, hsim::net::CutKind::Reset)));
+    let mut writer = client.dup();
+    let frames: Vec<Vec<u8>> = wires
+        .iter()
+        .map(|w| {
+            let mut f = (w.len() as u16).to_be_bytes().to_vec();
+            f.extend_from_slice(w);
+            f
+        })
+        .collect();
+    // a zero-length frame is a framing error: the server may (and does) end the connection there
+    let mut framing_broken = false;
+    for f in &frames {
+        let end = sent + f.len() as u64;
+        if f.len() == 2 {
+            framing_broken = true;
+        }
+        if !framing_broken && cut_at.map(|c| end <= c).unwrap_or(true) {
+            delivered_frames += 1;
+        }
+        sent = end;
+    }
+    if framing_broken {
+        exec::count("fault.tcp_zero_length_frame");
+    }
+    let half_close = p.half_close;
+    exec::spawn("client-writer", async move {
+        for f in frames {
+            if writer.write_all(&f).await.is_err() {
+                return;
+            }
+        }
+        if half_close {
+            writer.shutdown_write();
+        }
+        std::future::pending::<()>().await;
+    });
+    // expected responses, in order (the connection handles one request at a time)
+    let mut expected: Vec<(usize, [u8; 2])> = Vec::new();
+    for (i, w) in wires.iter().enumerate().take(delivered_frames) {
+        if w.len() >= 12 && w[2] & 0x80 == 0 {
+            expected.push((i, [w[0], w[1]]));
+        }
+    }
+    let mut got: Vec<Vec<u8>> = Vec::new();
+    let read_all = async {
+        loop {
+            let mut hdr = [0u8; 2];
+            if client.read_exact(&mut hdr).await.is_err() {
+                break;
+            }
+            let mut body = vec![0u8; u16::from_be_bytes(hdr) as usize];
+            if client.read_exact(&mut body).await.is_err() {
+                break;
+            }
+            got.push(body);
+        }
+    };
+    // nothing in this run takes longer than a few simulated seconds
+    let _ = exec::timeout(std::time::Duration::from_secs(30), read_all).await;
+    exec::count(&format!("probe.tcp.delivered_frames.{}", delivered_frames.min(8)));
+    // ---- judgement -------------------------------------------------------------------------------
+    // never more responses than eligible requests, ids in request order
+    for (k, resp) in got.iter().enumerate() {
+        let Some((i, id)) = expected.get(k) else {
+            exec::violate("C11.response-count", "tcp:extra-response", format!("response #{k} ({:02x?}...) on a connection whose {} delivered frames hold {} requests that may be answered", &resp[..resp.len().min(12)], delivered_frames, expected.len()));
+            return;
+        };
+        if resp.len() < 12 || resp[0..2] != id[..] || resp[2] & 0x80 == 0 {
+            if exec::violate("C11.id-or-qr", "tcp", format!("response #{k} has header {:02x?}, request {i} has id {:02x?}", &resp[..resp.len().min(12)], id)) {
+                return;
+            }
+        }
+    }
+    // every eligible request is answered while the client is still listening and sending nothing
+    // wrong: no reset, no half-close, no cut (a cut mid-frame makes the server end the connection)
+    // (a half-close or an EOF in the middle of a later frame leaves the other direction open:
+    // what was delivered completely before is still answered)
+    let client_stays = !reset;
+    if client_stays && got.len() < expected.len() {
+        let (i, _) = expected[got.len()];
+        exec::violate("C11.response-count", "tcp:missing-response", format!("request {i} of {} on one TCP connection ({} bytes, class {:?}) was never answered; {} responses arrived for {} eligible requests", p.reqs.len(), wires[i].len(), p.reqs[i].kind, got.len(), expected.len()));
+        return;
+    }
+    if !client_stays && got.len() < expected.len() {
+        exec::count(if p.half_close && p.c2s.cut.is_none() { "probe.tcp.unanswered_after_half_close" } else { "probe.tcp.unanswered_after_cut_or_reset" });
+    } else if !client_stays {
+        exec::count("probe.tcp.all_answered_although_client_left");
+    }
+}
+
 pub fn def_c11() -> CheckDef {
-    CheckDef { id: "C11", level: "exploration", parts: vec![Box::new(FrontPart)] }
+    CheckDef { id: "C11", level: "exploration", parts: vec![Box::new(FrontPart), Box::new(ConnPart)] }
 }
 
 pub fn def_c03() -> CheckDef {
